@@ -445,3 +445,32 @@ def field_source(db, ctx):
                                                                     "headword instead of the index key misplaces every A/B split boundary when the two differ in byte length"), fn=f)
     ctx.ob("write_word_info|count", len(got) == len(want), "write_word_info writes %d fields (reader has %d)" % (len(got), len(want)), fn=f)
     ctx.floor(10)
+
+
+@rule("C05.header-block", "Header::write_to emits exactly STORAGE_SIZE bytes: version (8) and time (8) through to_le_bytes, then the description's BYTES "
+                          "followed by DESCRIPTION_SIZE - description.len() zero bytes (a width-based text formatter pads by characters, not bytes, and "
+                          "shifts every later block for a non-ASCII description)")
+def header_block(db, ctx):
+    from ..inline import nf, range_bounds
+    from ..loops import iterations
+    from ..db import deref_all
+    f = db.view(db.one("write_to", "Header"))
+    wr = [c for c, _ in walk(f.hir) if c.get("k") == "MethodCall" and c.get("method") == "write_all" and c["args"]]
+    desc_bytes = any(nf(deref_all(c["args"][0])) == "self.description.as_bytes()" for c in wr)
+    fmt = [c for c, _ in walk(f.hir) if is_call(c) and (path_ends(callee(c) or "", ("Write::write_fmt", "write_fmt")) or c.get("method") == "write_fmt")]
+    pad_ok = False
+    for itn in iterations(f.hir):
+        rb = range_bounds(itn["it"])
+        one_zero = any(c.get("k") == "MethodCall" and c.get("method") == "write_all" and render(c["args"][0], x=True).replace(" ", "") in ("&[0]", "[0]") for c, _ in walk(itn["body"]))
+        if rb and rb[0] == "0" and rb[1] == "(Header::DESCRIPTION_SIZE - self.description.len())" and one_zero:
+            pad_ok = True
+    # a single write of a zero buffer of that length is the same padding
+    for c in wr:
+        a = deref_all(c["args"][0])
+        if isinstance(a, dict) and "(Header::DESCRIPTION_SIZE - self.description.len())" in nf(a) and ("[0" in render(a, x=True) or "vec" in render(a, x=True).lower() or "repeat" in render(a, x=True)):
+            pad_ok = True
+    ctx.ob("Header::write_to|description-block", desc_bytes and pad_ok and not fmt,
+           "description written as bytes: %s; padded with DESCRIPTION_SIZE - description.len() zero bytes: %s; text-formatter writes (write!): %d" % (desc_bytes, pad_ok, len(fmt)), fn=f)
+    ints = [nf(deref_all(c["args"][0])) for c in wr]
+    ctx.ob("Header::write_to|ints", any("self.version.to_u64().to_le_bytes()" == x for x in ints) and any("self.create_time.to_le_bytes()" == x for x in ints),
+           "version and create_time are written with to_le_bytes: %s" % [x for x in ints if "to_le_bytes" in x], fn=f)
